@@ -13,7 +13,9 @@ pub mod verif;
 pub fn build(in_dir: &Path, out_dir: &Path, pointer_size: usize) -> anyhow::Result<()> {
     let mut semantic_state = semantic::SemanticState::new(pointer_size);
 
-    for path in glob::glob(&format!("{}/**/*.pyxis", in_dir.display()))?.filter_map(Result::ok) {
+    // the directory name is a name, not a pattern
+    let in_dir_pattern = glob::Pattern::escape(&in_dir.display().to_string());
+    for path in glob::glob(&format!("{in_dir_pattern}/**/*.pyxis"))?.filter_map(Result::ok) {
         semantic_state.add_file(Path::new(&in_dir), &path)?;
     }
 
